@@ -204,7 +204,7 @@ func splitHead(s string) (tags []string, label string, rest string) {
 		for _, f := range strings.FieldsFunc(s[1:end], func(r rune) bool { return r == ',' || r == ' ' }) {
 			if tagRe.MatchString(f) {
 				tags = append(tags, f)
-			} else if strings.HasPrefix(f, "cfg:") {
+			} else if strings.HasPrefix(f, "cfg:") || f == "nocall" {
 				tags = append(tags, f)
 			} else {
 				label = f
